@@ -136,8 +136,8 @@ def eval_reader(lines, via="iter", consume="next", mode=None, text=None, given=N
 
     `via`: "iter" / "iterable" = MafReader(lines=<counting iterator / iterable over `lines`>), "path" / "gz" =
     MafReader.reader_from(<plain / gzip file holding `text`>) with the handle instrumented (the lines are then the physical
-    lines of the text); `consume`: "next" = next(reader), "for" / "iter" = next() on iter(reader), which is what a for loop
-    does; `mode` a stringency name or None; a scheme may be given.
+    lines of the text); `consume` (filecases.CONSUME_STYLES): "next" / "method" = next(reader) / reader.next(), "for" / "iter" / "iter-method" = next() /
+    .next() on iter(reader), which is what a for loop does; `mode` a stringency name or None; a scheme may be given.
     info["completed"] is False when the reader could not be constructed or was already too eager when constructed."""
     import shutil
     import tempfile
@@ -180,10 +180,11 @@ def eval_reader(lines, via="iter", consume="next", mode=None, text=None, given=N
                                kind="reader-eager")]
         failures = []
         returned = 0
-        it = rd if consume == "next" else iter(rd)
+        it = rd if consume in filecases.UNCHECKED_STYLES else iter(rd)
+        step = it.next if consume in ("method", "iter-method") else (lambda: next(it))
         try:
             while True:
-                next(it)
+                step()
                 returned += 1
                 bound = (k + 1) + returned + 1
                 info["steps"].append((returned, src.pulled, bound))
@@ -425,7 +426,7 @@ def reader_factory_cases(ctx, out, rng):
             if rng.random() < 0.3:
                 lines = filecases.with_empty_lines(rng, lines)
         via = rng.choice(READER_SOURCES)
-        kw = {"via": via, "consume": rng.choice(["next", "for", "for", "iter"]), "mode": rng.choice([None, "Silent", "Silent", "Lenient", "Strict"])}
+        kw = {"via": via, "consume": rng.choice(["next", "for", "for", "iter", "method", "iter-method"]), "mode": rng.choice([None, "Silent", "Silent", "Lenient", "Strict"])}
         if via in ("path", "gz"):
             kw["text"] = filecases.text_of(rng, lines)
             if not filecases.encodable(kw["text"]):
@@ -442,7 +443,7 @@ def reader_factory_cases(ctx, out, rng):
             out.distribution["reader:handle-not-observed"] += 1
         if info["completed"]:
             out.nontrivial.add(("reader", repr(lines), repr(sorted((k, v) for k, v in kw.items() if k != "text"))))
-            out.distribution["reader:%s/%s" % (via, "next(reader)" if kw["consume"] == "next" else "iter(reader)")] += 1
+            out.distribution["reader:%s/%s" % (via, "next(reader)" if kw["consume"] in filecases.UNCHECKED_STYLES else "iter(reader)")] += 1
             if len(info["steps"]) >= 3 and c16.declared(lines)["order"]:
                 out.distribution["reader:sortable order, >= 3 records returned"] += 1
 
@@ -552,7 +553,7 @@ def replay_case(ctx, failure):
              "path": "MafReader.reader_from(<plain file, %d physical lines, handle instrumented>" % len(lines),
              "gz": "MafReader.reader_from(<.gz file, %d physical lines, handle instrumented>" % len(lines)}[via], kw.get("mode"),
             ", scheme=<%s>" % kw["given"] if "given" in kw else ", scheme=NoRestrictionsScheme(%s)" % kw["given_norestrict"] if "given_norestrict" in kw else "",
-            "next(reader)" if style == "next" else "next() on iter(reader) (a for loop)"))
+            filecases.STYLE_TEXT.get(style, style)))
         for n, l in enumerate(lines[:10], start=1):
             print("  line %d: %r" % (n, l[:80]))
         info, failures = eval_reader(lines, **kw)
